@@ -97,6 +97,23 @@ async fn serves<TC: Configuration, S: Database + 'static>(cx: &mut Cx, dir: &Dir
                 },
                 Err(er) => cx.fail(format!("{} {}: key_history of {} failed: {:?}", prop, what, hb(l), er)),
             }
+            // the most recent n entries
+            for n in [1usize, 2, tv.len() + 1] {
+                let hp = HistoryParams::MostRecent(n);
+                match dir.key_history(&AkdLabel(l.clone()), hp).await {
+                    Ok((p, e)) => match key_history_verify::<TC>(&pk, e.1, e.0, AkdLabel(l.clone()), p, HistoryVerificationParams::Default { history_params: hp }) {
+                        Ok(rs) => {
+                            let got: Vec<(u64, u64)> = rs.iter().map(|r| (r.version, r.epoch)).collect();
+                            let want: Vec<(u64, u64)> = tv.iter().rev().take(n).map(|x| (x.0, x.2)).collect();
+                            if got != want {
+                                cx.fail(format!("{} {}: most recent {} history of {} yields {:?} expected {:?}", prop, what, n, hb(l), got, want));
+                            }
+                        }
+                        Err(er) => cx.fail(format!("{} {}: most recent {} history proof of {} does not verify: {:?}", prop, what, n, hb(l), er)),
+                    },
+                    Err(er) => cx.fail(format!("{} {}: key_history (most recent {}) of {} failed: {:?}", prop, what, n, hb(l), er)),
+                }
+            }
         }
     }
     if t.epoch >= 1 {
